@@ -525,6 +525,15 @@ func runC01(c *Ctx) {
 				if cal == nil || isDecision[cal] || !p.OnlyCalledWithin(cal, adv) || len(cal.Blocks) == 0 {
 					return
 				}
+				// a genuine tail call: the result is returned and not looked at (a call whose
+				// error is tested before it is returned is a mid-flight helper, inlined below)
+				for _, ref := range *call.Referrers() {
+					switch ref.(type) {
+					case *ssa.Return, *ssa.DebugRef:
+					default:
+						return
+					}
+				}
 				for _, h := range helper {
 					if h == cal {
 						return
@@ -556,6 +565,111 @@ func runC01(c *Ctx) {
 		}
 		res := map[string]*verdict{"skip-only-when-nothing-changes": {}, "decompress-before-decode": {}, "encode-when-codec-differs": {}, "recompress-when-compressed": {}}
 		counted := 0
+		// one success path may expand into several variants when it calls a helper of the
+		// decision function in mid-flight (a case body moved into its own method): each
+		// success path of the helper is inlined
+		type variant struct {
+			seq               []string
+			truth             map[*types.Var]bool
+			recursive, stored bool
+		}
+		flags := []*types.Var{sameCodecF, wasComprF, sameComprF}
+		truthOf := func(cp CFGPath) map[*types.Var]bool {
+			out := map[*types.Var]bool{}
+			for cond, truth := range cp.Truth {
+				for _, f := range flags {
+					if LoadedField(cond) == f {
+						out[f] = truth
+					}
+				}
+			}
+			return out
+		}
+		isHelper := func(fn *ssa.Function) bool {
+			for _, h := range helper {
+				if h == fn {
+					return true
+				}
+			}
+			return false
+		}
+		var variantsOf func(cp CFGPath, depth int) []variant
+		var successVariants func(fn *ssa.Function, depth int) []variant
+		successVariants = func(fn *ssa.Function, depth int) []variant {
+			ps, ok := EnumPaths(fn.Blocks[0], nil, IsReturn, 0)
+			if !ok {
+				c.Unknown("C01.4", FuncName(fn), "paths", fn.Pos(), "too many paths")
+				return nil
+			}
+			ei := errorResultIndex(fn.Signature)
+			var out []variant
+			for _, cp := range ps {
+				rv := ReturnValues(cp.End.(*ssa.Return))
+				if ei < 0 || ei >= len(rv) || !IsNilConst(cp.Deref(rv[ei])) || !cp.FieldConsistent() {
+					continue
+				}
+				out = append(out, variantsOf(cp, depth)...)
+			}
+			return out
+		}
+		variantsOf = func(cp CFGPath, depth int) []variant {
+			vs := []variant{{truth: truthOf(cp)}}
+			for _, b := range cp.Blocks {
+				for _, in := range b.Instrs {
+					if ci, ok := in.(ssa.CallInstruction); ok {
+						for _, cal := range p.CalleesAt(ci) {
+							for n, h := range helper {
+								if cal == h {
+									for i := range vs {
+										vs[i].seq = append(append([]string{}, vs[i].seq...), n)
+									}
+								}
+							}
+							if cal == adv {
+								for i := range vs {
+									vs[i].recursive = true
+								}
+							}
+							// a mid-flight helper of the decision function
+							if depth < 2 && cal != adv && !isDecision[cal] && !isHelper(cal) && len(cal.Blocks) > 0 && p.inScope(cal) &&
+								cal.Signature.Recv() != nil && isPtrTo(cal.Signature.Recv().Type(), RootPath, "message") && p.OnlyCalledWithin(cal, adv) && errorResultIndex(cal.Signature) >= 0 {
+								hv := successVariants(cal, depth+1)
+								var next []variant
+								for _, v := range vs {
+									for _, h := range hv {
+										conflict := false
+										merged := map[*types.Var]bool{}
+										for k, t := range v.truth {
+											merged[k] = t
+										}
+										for k, t := range h.truth {
+											if old, seen := merged[k]; seen && old != t {
+												conflict = true
+											}
+											merged[k] = t
+										}
+										if conflict {
+											continue
+										}
+										next = append(next, variant{seq: append(append([]string{}, v.seq...), h.seq...), truth: merged, recursive: v.recursive || h.recursive, stored: v.stored || h.stored})
+									}
+								}
+								vs = next
+							}
+						}
+					}
+					if st, ok := in.(*ssa.Store); ok {
+						if fa, ok := st.Addr.(*ssa.FieldAddr); ok && FieldOfAddr(fa) == stageF {
+							for i := range vs {
+								vs[i].stored = true
+							}
+						}
+					}
+				}
+			}
+			return vs
+		}
+		var all []variant
 		for _, cp := range paths {
 			ret := cp.End.(*ssa.Return)
 			if !IsNilConst(cp.Deref(ret.Results[0])) {
@@ -564,36 +678,13 @@ func runC01(c *Ctx) {
 			if !cp.FieldConsistent() {
 				continue // infeasible: repeated loads of the same flag / stage disagree
 			}
-			var seq []string
-			recursive, storedStage := false, false
-			for _, b := range cp.Blocks {
-				for _, in := range b.Instrs {
-					if ci, ok := in.(ssa.CallInstruction); ok {
-						for _, cal := range p.CalleesAt(ci) {
-							for n, h := range helper {
-								if cal == h {
-									seq = append(seq, n)
-								}
-							}
-							if cal == adv {
-								recursive = true
-							}
-						}
-					}
-					if st, ok := in.(*ssa.Store); ok {
-						if fa, ok := st.Addr.(*ssa.FieldAddr); ok && FieldOfAddr(fa) == stageF {
-							storedStage = true
-						}
-					}
-				}
-			}
+			all = append(all, variantsOf(cp, 0)...)
+		}
+		for _, v := range all {
+			seq, recursive, storedStage := v.seq, v.recursive, v.stored
 			tv := func(f *types.Var) (val, known bool) {
-				for cond, truth := range cp.Truth {
-					if LoadedField(cond) == f {
-						return truth, true
-					}
-				}
-				return false, false
+				t, ok := v.truth[f]
+				return t, ok
 			}
 			has := func(n string) bool {
 				for _, x := range seq {
@@ -894,6 +985,85 @@ func runC01(c *Ctx) {
 		c.Check(bad == 0 && nOK > 0, "C01.6", FuncName(fn), "no-op-only-without-pool", fn.Pos(),
 			"every successful return either compressed the buffer or knows that no compression is configured ("+itoa(nOK)+" success paths)",
 			itoa(bad)+" success path(s) skip the compression although a compression is configured: the message is sent uncompressed (or empty) under an envelope flag / Content-Encoding that says compressed")
+	}
+
+	// ---------------------------------------------------------------- C01.9
+	// (seeds C09h, C01h) The other stage helpers and the built-in codecs do their work on every
+	// successful path.  `decode` succeeds only through the codec's Unmarshal or a body preparer,
+	// `encode` only through MarshalAppend / a body preparer: a fast path for 'nothing to do'
+	// (an empty buffer) makes zero bytes a valid JSON message.  And a built-in codec's Unmarshal
+	// succeeds only by handing the bytes to the protobuf runtime's unmarshal, which is also what
+	// resets the target: the message object is reused for every message of a stream, so a fast
+	// path for zero bytes delivers the previous message again.
+	c.Rule("C01.9", "decode/encode and the built-in codecs' Unmarshal succeed only by doing the work (no fast path for empty input)", 4)
+	{
+		work := map[string][]string{
+			"decode": {"Unmarshal", "UnmarshalField", "prepareUnmarshalledRequest", "prepareUnmarshalledResponse"},
+			"encode": {"MarshalAppend", "MarshalAppendStable", "MarshalAppendField", "prepareMarshalledRequest", "prepareMarshalledResponse"},
+		}
+		checkDoesWork := func(fn *ssa.Function, names []string, label, bad string) {
+			paths, ok := EnumPaths(fn.Blocks[0], nil, IsReturn, 0)
+			if !ok {
+				c.Unknown("C01.9", FuncName(fn), label, fn.Pos(), "too many paths")
+				return
+			}
+			ei := errorResultIndex(fn.Signature)
+			nOK, nBad := 0, 0
+			for _, cp := range paths {
+				rv := ReturnValues(cp.End.(*ssa.Return))
+				if ei < 0 || ei >= len(rv) {
+					continue
+				}
+				res := cp.Deref(rv[ei])
+				did := false
+				for _, b := range cp.Blocks {
+					for _, in := range b.Instrs {
+						ci, isC := in.(ssa.CallInstruction)
+						if !isC {
+							continue
+						}
+						cc := ci.Common()
+						nm := ""
+						if cc.IsInvoke() {
+							nm = N(cc.Method)
+						} else if sc := cc.StaticCallee(); sc != nil {
+							nm = N(sc)
+						}
+						for _, w := range names {
+							if nm == w {
+								did = true
+							}
+						}
+					}
+				}
+				if did {
+					nOK++
+					continue
+				}
+				if IsNilConst(res) {
+					nBad++
+				}
+			}
+			c.Check(nBad == 0 && nOK > 0, "C01.9", FuncName(fn), label, fn.Pos(),
+				"every successful return went through "+joinStr(names)+" ("+itoa(nOK)+" working paths)",
+				itoa(nBad)+" path(s) return success without calling any of "+joinStr(names)+": "+bad)
+		}
+		for _, n := range []string{"decode", "encode"} {
+			checkDoesWork(helper[n], work[n], n+"-does-the-work",
+				"a fast path (empty buffer, 'nothing to do') lets input through that the codec would reject - zero bytes are not a JSON message - or leaves the previous content in place")
+		}
+		codecI := p.Iface("Codec")
+		if codecI == nil {
+			fatalf("anchor=Codec interface not found")
+		}
+		for _, t := range p.Implementers(codecI) {
+			um := p.MethodOf(t, "Unmarshal")
+			if um == nil || !p.inScope(um) || um.Synthetic != "" {
+				continue
+			}
+			checkDoesWork(um, []string{"Unmarshal"}, "codec-unmarshal-does-the-work",
+				"the target message is reused for every message of a stream and only the runtime's Unmarshal resets it: a fast path for zero bytes (the all-defaults message) delivers the previous message of the stream again")
+		}
 	}
 
 	// ---------------------------------------------------------------- C01.3
